@@ -369,7 +369,28 @@ type gun struct {
 	aggr    core.Aggregator
 	report  bool // report a sample per shot (real aggregator)
 	ids     map[any]int
-	panicAt int // fault plan: the panicAt-th Shoot of the pool panics (0 = never)
+	panicAt int  // fault plan: the panicAt-th Shoot of the pool panics (0 = never)
+	warm    bool // the gun instancePool.Run makes for the warm-up (closed before any instance exists)
+}
+
+// made: called by the gun factories; the first gun of a pool is the warm-up gun
+func (g *gun) made() *gun {
+	g.r.mu.Lock()
+	g.warm = g.r.guns == 0
+	g.r.guns++
+	g.r.mu.Unlock()
+	return g
+}
+
+// Close: runNewInstance closes the instance (its gun) after Run returned. The controlled starter uses the count to know
+// which instances have left Run even on a tree whose InstanceFinish counter is wrong.
+func (g *gun) Close() error {
+	g.r.mu.Lock()
+	if !g.warm {
+		g.r.gunsClosed++
+	}
+	g.r.mu.Unlock()
+	return nil
 }
 
 func (g *gun) Bind(a core.Aggregator, _ core.GunDeps) error { g.aggr = a; return nil }
